@@ -38,6 +38,14 @@ func genC05(r *simrt.Rand, tier string, idx int) *hx.Program {
 		}
 	}
 	p.P["cleaner_s"] = []int64{300, 7}[r.Intn(2)]
+	if p.P["compact"] == 0 && p.P["ret_msgs"] == 0 && p.P["ret_bytes"] == 0 {
+		// Without retention and compaction the cleaner's tick only rolls the active segment by age, so the model
+		// stays exact when simulated time passes inside operations: the tick (and the HW checkpoint loop) then
+		// lands in the middle of appends, truncations and reopenings, and the crash points in the middle of both.
+		p.P["timeskip"] = []int64{0, 5, 40}[r.Intn(3)]
+		p.P["skipmax_ms"] = []int64{50, 2000, 30000}[r.Intn(3)]
+		p.P["cleaner_s"] = []int64{300, 7, 1}[r.Intn(3)]
+	}
 	n := 3 + r.Intn(22)
 	for i := 0; i < n; i++ {
 		k := r.Intn(100)
@@ -84,9 +92,31 @@ func expandC05(t *testing.T, base *hx.Program, r *simrt.Rand, tier string) []*hx
 	}
 	pick := pts
 	if tier != "thorough" {
-		want := 6
-		if len(pts) > want {
+		want := 3
+		if len(pts) > want+5 {
 			pick = nil
+			// Uniform sampling over the points favours the frequent ones (log writes, index copies: 13% each)
+			// over the rare windows (the renames of a segment replacement: 0.7% each). Up to five distinct
+			// boundary names, one point each, then three points uniformly.
+			byName := map[string][]pt{}
+			var names []string
+			for _, x := range pts {
+				nm := ""
+				if x.op < len(c.fsNamesPerOp) && x.j-1 < len(c.fsNamesPerOp[x.op]) {
+					nm = c.fsNamesPerOp[x.op][x.j-1]
+				}
+				if _, ok := byName[nm]; !ok {
+					names = append(names, nm)
+				}
+				byName[nm] = append(byName[nm], x)
+			}
+			sort.Strings(names)
+			for k := 0; k < 5 && len(names) > 0; k++ {
+				i := r.Intn(len(names))
+				cands := byName[names[i]]
+				pick = append(pick, cands[r.Intn(len(cands))])
+				names = append(names[:i], names[i+1:]...)
+			}
 			for k := 0; k < want; k++ {
 				pick = append(pick, pts[r.Intn(len(pts))])
 			}
@@ -100,7 +130,12 @@ func expandC05(t *testing.T, base *hx.Program, r *simrt.Rand, tier string) []*hx
 		}
 		for i, op := range base.Ops {
 			if i == x.op {
-				q.Ops = append(q.Ops, hx.Op{K: "crash", A: []int64{int64(x.j)}})
+				// in a third of the variants the recovery is killed as well, at its k-th file-system effect
+				rk := int64(0)
+				if r.Pct(33) {
+					rk = int64(1 + r.Intn(8))
+				}
+				q.Ops = append(q.Ops, hx.Op{K: "crash", A: []int64{int64(x.j), rk}})
 			}
 			q.Ops = append(q.Ops, op)
 		}
@@ -129,12 +164,14 @@ func expandC05(t *testing.T, base *hx.Program, r *simrt.Rand, tier string) []*hx
 
 type c05 struct {
 	*h1
-	fsPerOp  []int
-	crashes  int
-	recovers int
-	maxSegs  int
-	fsNames  map[string]int
-	holes    bool
+	fsPerOp      []int
+	fsNamesPerOp [][]string
+	recCrashes   int
+	crashes      int
+	recovers     int
+	maxSegs      int
+	fsNames      map[string]int
+	holes        bool
 }
 
 func execC05(t *testing.T, prog *hx.Program, dec *simrt.Decider, verbose bool) *hx.Outcome {
@@ -330,13 +367,14 @@ func (c *c05) exec(t *testing.T, prog *hx.Program, dec *simrt.Decider, verbose b
 			h.oc.Trouble = fmt.Sprintf("first open: %v crashed=%v", err, crashed)
 			return
 		}
-		arm := 0
+		arm, recArm := 0, 0
 		for i, op := range prog.Ops {
 			if h.stop {
 				break
 			}
 			if op.K == "crash" {
 				arm = int(op.Arg(0, 1))
+				recArm = int(op.Arg(1, 0))
 				continue
 			}
 			h.s.Logf("op %d %s (arm=%d)", i, op, arm)
@@ -504,6 +542,12 @@ func (c *c05) exec(t *testing.T, prog *hx.Program, dec *simrt.Decider, verbose b
 					c.fsPerOp = append(c.fsPerOp, 0)
 				}
 				c.fsPerOp[i] = h.s.FSHits() - fs0
+				for len(c.fsNamesPerOp) <= i {
+					c.fsNamesPerOp = append(c.fsNamesPerOp, nil)
+				}
+				if fs0 <= len(h.s.FSNames) && h.s.FSHits() <= len(h.s.FSNames) {
+					c.fsNamesPerOp[i] = append([]string{}, h.s.FSNames[fs0:h.s.FSHits()]...)
+				}
 			}
 			if !crashed {
 				crashed = h.s.Crashed(h.node)
@@ -516,12 +560,40 @@ func (c *c05) exec(t *testing.T, prog *hx.Program, dec *simrt.Decider, verbose b
 				}
 				h.s.Logf("crashed at %s; reopening", h.s.FSCrashed)
 				c.fsNames[h.s.FSCrashed]++
-				// recovery itself may be hit by a later armed crash; here it runs unarmed
-				cr, err := h.open()
-				if cr {
-					h.oc.Trouble = "unarmed reopen crashed"
-					return
+				// The recovery may be killed as well (recArm: at its k-th file-system effect; the attempt after
+				// that at its first one; the third attempt runs to the end). What is required of the log that the
+				// last open yields is the same: everything whose append had completed before the first crash.
+				first := h.s.FSCrashed
+				var err error
+				for attempt := 0; ; attempt++ {
+					k := 0
+					if attempt == 0 {
+						k = recArm
+					} else if attempt == 1 && recArm > 0 && recArm%2 == 0 {
+						k = 1
+					}
+					if k > 0 {
+						h.s.CrashAtFS = h.s.FSHits() + k
+					}
+					var cr bool
+					cr, err = h.open()
+					h.s.CrashAtFS = 0
+					if !cr {
+						break
+					}
+					if k == 0 {
+						h.oc.Trouble = "unarmed reopen crashed"
+						return
+					}
+					if len(h.s.Panics) > 0 {
+						return
+					}
+					c.recCrashes++
+					c.fsNames["in-recovery:"+h.s.FSCrashed]++
+					h.s.Logf("recovery crashed at %s; reopening again", h.s.FSCrashed)
 				}
+				recArm = 0
+				h.s.FSCrashed = first
 				h.oc.Checks++
 				if err != nil {
 					h.fail("C05/recover", "C05/recover/open-error:"+h.s.FSCrashed, "reopening after a crash at %s failed: %v", h.s.FSCrashed, err)
@@ -578,6 +650,7 @@ func (c *c05) exec(t *testing.T, prog *hx.Program, dec *simrt.Decider, verbose b
 		}
 		oc.Counters["probe.max_segments"] = c.maxSegs
 		oc.Counters["fault.fs_crash"] = c.crashes
+		oc.Counters["fault.fs_crash_inside_recovery"] = c.recCrashes
 		oc.Counters["probe.recoveries_judged"] = c.recovers
 		for k, v := range c.fsNames {
 			oc.Counters["crashpoint."+k] += v
